@@ -279,6 +279,22 @@ def run(chk):
             chk.fail("c02:rotated-secret-still-accepted", "after update-user changed the secret, requests signed with the old secret answer GET %d / PUT %d%s"
                      % (stale.status, stale_put.status, " and change the storage" if changed else ""),
                      {"warm_status": warm.status, "update_status": upd.status, "stale_get": stale.status, "stale_put": stale_put.status, "changed": changed})
+        # an account that rotates its own secret (admin role): with no request of any other account in between, the old secret is
+        # refused at once and the new one accepted (whatever the signer remembers of the requests it verified before)
+        cl.req("PATCH", "/create-user", body=b"<Account><Access>selfadm</Access><Secret>self-one</Secret><Role>admin</Role><UserID>0</UserID><GroupID>0</GroupID></Account>")
+        s1 = s3c.Client(g.port, "selfadm", "self-one")
+        warm2 = [s1.req("GET", "/bk1/obj2").status, s1.req("GET", "/bk1", query={"list-type": "2"}).status]
+        upd2 = s1.req("PATCH", "/update-user", query={"access": "selfadm"}, body=b"<MutableProps><Secret>self-two</Secret></MutableProps>")
+        snap2 = e2e.snapshot(*roots)
+        stale2 = s1.req("GET", "/bk1/obj2"); stale2_put = s1.req("PUT", "/bk1/by-own-old-secret", body=b"x")
+        changed2 = e2e.snap_diff(snap2, e2e.snapshot(*roots))
+        fresh2 = s3c.Client(g.port, "selfadm", "self-two").req("GET", "/bk1/obj2")
+        chk.case(("history", "self-rotated-secret"), True); chk.traces += 1
+        if upd2.status == 200 and (stale2.status == 200 or stale2_put.status == 200 or changed2 or fresh2.status != 200):
+            chk.fail("c02:own-rotated-secret-still-accepted", "after the account changed its own secret with update-user (no request of another account in between), requests signed with the old secret answer GET %d / PUT %d%s, "
+                     "a request signed with the new secret answers %d" % (stale2.status, stale2_put.status, " and change the storage" if changed2 else "", fresh2.status),
+                     {"warm_statuses": warm2, "update_status": upd2.status, "old_secret_get": stale2.status, "old_secret_put": stale2_put.status, "new_secret_get": fresh2.status, "changed": changed2})
+        cl.req("PATCH", "/delete-user", query={"access": "selfadm"})
         # a create-user the gateway refuses (the account exists) must not change which secret is accepted
         dup = cl.req("PATCH", "/create-user", body=b"<Account><Access>victim</Access><Secret>refused-secret</Secret><Role>admin</Role><UserID>0</UserID><GroupID>0</GroupID></Account>")
         forged = s3c.Client(g.port, "victim", "refused-secret").req("GET", "/bk1/obj2")
@@ -287,11 +303,13 @@ def run(chk):
         if dup.status >= 400 and (forged.status == 200 or real.status != 200):
             chk.fail("c02:refused-create-user-changes-secret", "after a create-user for an existing account was refused (%d %s), the secret it named answers %d and the account's real secret %d"
                      % (dup.status, dup.code, forged.status, real.status), {"create_user": dup.status, "refused_secret_get": forged.status, "real_secret_get": real.status})
-        cl.req("PATCH", "/delete-user", query={"access": "victim"})
+        du = cl.req("PATCH", "/delete-user", query={"access": "victim"})
         gone = s3c.Client(g.port, "victim", "rotated").req("GET", "/bk1/obj2")
         chk.case(("history", "deleted-account"), True); chk.traces += 1
-        if gone.status == 200:
-            chk.fail("c02:deleted-account-still-accepted", "a request by a deleted account answers 200", {"status": gone.status})
+        if gone.status == 200 and du.status == 200:
+            la = cl.req("PATCH", "/list-users")
+            chk.fail("c02:deleted-account-still-accepted", "after delete-user answered 200, a request signed by the deleted account answers 200",
+                     {"delete_user": "%d %s" % (du.status, du.code), "request_by_deleted_account": gone.status, "list_users_afterwards": la.body.decode("latin1")[:600]})
         chk.tie("gateway still running", g.alive(), g.log_tail())
     chk.samples.extend(rows[10:13])
 
